@@ -108,8 +108,24 @@ class TlcResult:
         return [a for a, (d, t) in self.coverage.items() if t == 0]
 
 
-def tlc(spec_dir, module, cfg, work, env=None, workers=8, simulate=None, depth=None, coverage=True,
-        dfs=False, timeout=1800, heap="8g", extra=None, deadlock=False):
+TLC_TRANSIENT = ("StatePoolReader", "when reading pool file", "StatePoolWriter", "when writing pool file")
+
+
+def tlc(*args, **kw):
+    """TLC with one retry on its own transient disk-queue errors (seen once under heavy I/O load: 'Error: when reading
+    pool file N (StatePoolReader.run) ... No such file or directory' -- a race inside TLC's disk-backed state queue, not a
+    result about the model); everything else is passed through unchanged."""
+    for attempt in (1, 2, 3):
+        try:
+            return _tlc_once(*args, **kw)
+        except ToolError as e:
+            if attempt == 3 or not any(m in str(e) for m in TLC_TRANSIENT):
+                raise
+            log("TLC transient I/O error (attempt %d), running it again: %s" % (attempt, str(e).splitlines()[1][:160] if len(str(e).splitlines()) > 1 else ""))
+
+
+def _tlc_once(spec_dir, module, cfg, work, env=None, workers=8, simulate=None, depth=None, coverage=True,
+              dfs=False, timeout=1800, heap="8g", extra=None, deadlock=False):
     """Run TLC on specs/<spec_dir>/<module>.tla with <cfg>; returns a TlcResult (never raises on
     an invariant violation, raises ToolError on parse errors / crashes / timeouts)."""
     sdir = os.path.join(SPECS, spec_dir)
